@@ -436,9 +436,10 @@ def run(ctx):
         states = ctx.dump_states(r)
         if len(states) != r.distinct:
             raise core._tlc.MachineryError(f"dump has {len(states)} states, TLC reports {r.distinct}")
-    # model-level witness of D13 (informational): today's periodic algorithm, transcribed, violates shift commutation
+    # model-level witness of D13 (informational): the periodic algorithm the library had before fix 45dee792
+    # (wrap padding of ONE cell), transcribed, violates shift commutation
     w = core._tlc.run("MC_C04", "C04_d13.cfg", ctx.scratch, workers=2, tag="d13")
-    ctx.notes["model_witness_D13_todays_periodic_code_violates_ShiftCommutes"] = int(
+    ctx.notes["model_witness_D13_wrap_pad_1_algorithm_violates_ShiftCommutes"] = int(
         "D13_TodaysCodeCommutesWithShifts" in w.violated)
     rjobs, units = plan_r(ctx, states, embs)
     tjobs = plan_t(ctx, units, embs)
@@ -504,7 +505,7 @@ def judge(ctx, traces, nbatch=None):
     with ThreadPoolExecutor(max_workers=8) as ex:
         results = list(ex.map(one, range(len(batches))))
     byid = {t["id"]: t for t in traces}
-    infos = {"observed_operators": 0, "equal_reference_operator": 0, "equal_todays_periodic_code": 0}
+    infos = {"observed_operators": 0, "equal_reference_operator": 0, "equal_wrap_pad_1_algorithm_D13": 0}
     for b, (r, verdicts, _) in zip(batches, results):
         expect = sum(len(t["ev"]) + 1 for t in b)
         if r.distinct != expect:
@@ -515,7 +516,7 @@ def judge(ctx, traces, nbatch=None):
         for _, tid, l, n, eq_ref, eq_code in info:
             infos["observed_operators"] += n
             infos["equal_reference_operator"] += eq_ref
-            infos["equal_todays_periodic_code"] += eq_code
+            infos["equal_wrap_pad_1_algorithm_D13"] += eq_code
         for v in verdicts:
             _, tid, l, clause, cls, first, cnt = v
             t = byid[tid]
